@@ -281,9 +281,7 @@ func checkSummary(f *ssa.Function, sm *dataflow.SummaryGraph, fi *dataflow.FlowI
 						}
 					}
 					for o := range originsOf(a, memo, 0) {
-						if oc, ok := o.(*ssa.Call); ok && ssa.Instruction(oc) == ins {
-							continue
-						}
+						// (a call's own result can reach its own argument through a loop-carried phi: x = step(x))
 						require(o, uses, "call-argument", x)
 					}
 				}
@@ -429,6 +427,13 @@ func C08(tier string) {
 		}
 		targets = append(targets, target{fmt.Sprintf("gen%02d", p), dir, stdRe, maxI, p%2 == 1, files})
 	}
+	{
+		dir := filepath.Join(run.Scratch, "ops")
+		files := map[string]string{"main.go": c08OpsProgram}
+		if err := gen.WriteProgram(dir, files); err == nil {
+			targets = append(targets, target{"ops", dir, `^vprog$`, maxI, false, files})
+		}
+	}
 	reals := realTaintPrograms("taint")
 	if tier != "thorough" {
 		var sel []string
@@ -522,3 +527,96 @@ func C08(tier string) {
 		"(i) every origin->use pair of the SSA def-use reference relation must be an edge of the summary, (ii) marks attached to a value after an instruction must be attached after each CFG successor; "+
 		"non-trivial = function/obligation with at least one origin->use pair")
 }
+
+// c08OpsProgram exercises every value-computing instruction kind of the property on tracked data (unary and binary
+// operators on integers, floats, complex numbers and strings, conversions, field/index selection, slicing, extraction,
+// boxing, assertions, phis incl. loop-carried self-feeding calls, builtins).
+const c08OpsProgram = `package main
+
+import "vprog/rt"
+
+type P struct {
+	a, b int
+	s    []int
+	m    map[string]int
+}
+
+func neg(x int) int          { return -x }
+func compl(x int) int        { return ^x }
+func not(b bool) bool        { return !b }
+func andnot(x, m int) int    { return x &^ m }
+func shifts(x int, n uint) int { return x<<n | x>>n }
+func arith(x, y int) int     { return (x+y)*(x-y)/(y|1) % 7 }
+func cmp(x, y int) bool      { return x < y || x == y }
+func fl(x float64) float64   { return -x * 2.5 }
+func cx(x float64) float64   { c := complex(x, 1); return real(c) + imag(c*c) }
+func conv(x int) string      { return string(rune(x)) }
+func conv2(x int32) float64  { return float64(int64(x)) }
+func str(a, b string) string { return a + b[1:] }
+func field(p P) int          { return p.a }
+func fieldptr(p *P) int      { return p.b }
+func index(a [3]int, i int) int { return a[i] }
+func sliceidx(s []int) int   { return s[0] }
+func lookup(m map[string]int, k string) int { return m[k] }
+func lookup2(m map[string]int, k string) (int, bool) { v, ok := m[k]; return v, ok }
+func slicing(s []int) []int  { return s[1:2:3] }
+func box(x int) any          { return x }
+func unbox(a any) int        { return a.(int) }
+func unbox2(a any) (int, bool) { v, ok := a.(int); return v, ok }
+func arrptr(s []int) *[2]int { return (*[2]int)(s) }
+func mins(a, b, c int) int   { return min(a, max(b, c)) }
+func app(s []int, x int) []int { return append(s, x) }
+func cond(x int) int {
+	if compl(x) > 0 {
+		return 1
+	}
+	return 0
+}
+func phi(x, y int, c bool) int {
+	r := x
+	if c {
+		r = y
+	}
+	return r
+}
+func step(x int) int { return x + 1 }
+func selfFeed(x int, n int) int {
+	for i := 0; i < n; i++ {
+		x = step(x)
+	}
+	return x
+}
+func fix(x int) int {
+	for {
+		y := step(x)
+		if y == x {
+			return y
+		}
+		x = y
+	}
+}
+func checksum(data []byte, seed uint32) uint32 {
+	crc := ^seed
+	for _, b := range data {
+		crc = crc>>8 ^ uint32(b)
+	}
+	return ^crc
+}
+func closureBind(x int) func() int { y := ^x; return func() int { return y } }
+func tuple(x int) (int, int)       { return x, -x }
+func useTuple(x int) int {
+	a, b := tuple(x)
+	return a ^ b
+}
+
+func main() {
+	defer rt.Done()
+	v := len(rt.Source(1))
+	p := P{a: v, b: v, s: []int{v}, m: map[string]int{"k": v}}
+	r := neg(v) + compl(v) + andnot(v, 3) + shifts(v, 2) + arith(v, 2) + field(p) + fieldptr(&p) + index([3]int{v}, 0) + sliceidx(p.s) +
+		lookup(p.m, "k") + unbox(box(v)) + mins(v, 1, 2) + cond(v) + phi(v, 1, not(cmp(v, 2))) + selfFeed(v, 2) + fix(v) + useTuple(v) + closureBind(v)()
+	a, _ := lookup2(p.m, "k")
+	b, _ := unbox2(v)
+	rt.Sink(1, []any{r, a, b, fl(float64(v)), cx(float64(v)), conv(v), conv2(int32(v)), str("a", rt.Source(2)), slicing([]int{v, v, v}), arrptr([]int{v, v}), app(nil, v), checksum([]byte(rt.Source(3)), uint32(v))})
+}
+`
